@@ -423,6 +423,10 @@ func runC14(c *core.Ctx) {
 		"shared memory of package s2 without a hook is covered by the full-memory pass (same exploration, preemption bound 1-3, in a binary whose every access to pointer-reachable or package-level memory of s2 reports to the happens-before check); memory touched only inside other packages (math/big, r3.PreciseVector) and whole-slice operations (copy, append into spare capacity) are covered only by the separate free-running -race pass of the same bodies",
 	}
 	scs := c14Scenarios()
+	if c.OnlySub == "F-first-use" {
+		freshReplay(c, "F-first-use")
+		return
+	}
 	if c.OnlySub != "" {
 		c14Replay(c, scs)
 		return
@@ -463,6 +467,9 @@ func runC14(c *core.Ctx) {
 	c.Note("scenarios", table)
 	c.Note("states_definition", "states = distinct outcome classes (builder set, race count, deadlock) summed over scenarios; transitions = scheduling points executed; traces = complete executions, all of them on the implementation itself")
 	c14MemPass(c, memJobs)
+	if os.Getenv("C14_SCENARIO") == "" || strings.HasPrefix("F-first-use", os.Getenv("C14_SCENARIO")) {
+		c14FirstUse(c)
+	}
 	c14FreeRunningRace(c)
 }
 
